@@ -1738,6 +1738,13 @@ impl<'a, MutexType, T> FusedFuture for ChannelReceiveFuture<'a, MutexType, T> {'
     {'name': 'benign-refactor-RF12-state-and-oneshot-broadcast-2', 'props': ALLP + ['C16'], 'patch': 'benign/RF12/patch.diff'},
     {'name': 'benign-refactor-RF13-list-heap-buffers-2', 'props': ALLP + ['C16'], 'patch': 'benign/RF13/patch.diff'},
     {'name': 'benign-refactor-RF14-oneshot-futures-errors-2', 'props': ALLP + ['C16'], 'patch': 'benign/RF14/patch.diff'},
+    {'name': 'benign-refactor-RF15-mutex-3', 'props': ALLP + ['C16'], 'patch': 'benign/RF15/patch.diff'},
+    {'name': 'benign-refactor-RF16-semaphore-3', 'props': ALLP + ['C16'], 'patch': 'benign/RF16/patch.diff'},
+    {'name': 'benign-refactor-RF17-mpmc-state-3', 'props': ALLP + ['C16'], 'patch': 'benign/RF17/patch.diff'},
+    {'name': 'benign-refactor-RF18-mpmc-shared-and-futures-3', 'props': ALLP + ['C16'], 'patch': 'benign/RF18/patch.diff'},
+    {'name': 'benign-refactor-RF19-event-timer-clock-3', 'props': ALLP + ['C16'], 'patch': 'benign/RF19/patch.diff'},
+    {'name': 'benign-refactor-RF21-list-heap-buffers-utils-3', 'props': ALLP + ['C16'], 'patch': 'benign/RF21/patch.diff'},
+    {'name': 'benign-refactor-RF20-oneshot-broadcast-state-3', 'props': [p_ for p_ in ALLP + ['C16'] if p_ != 'C11'], 'patch': 'benign/RF20/patch.diff'},
     {'name': 'benign-unrelated-additions', 'props': ALLP, 'edits': [
         {'file': 'src/sync/semaphore.rs',
          'old': '''    /// Returns the amount of permits that are available on the semaphore
